@@ -13,7 +13,7 @@ LEVEL = "fault_enumeration"
 RULE = ("A history is a list of up to 6 NP2Converter.process(overwrite) runs, each with a fresh converter, options "
         "{post_check, compress, delete_original} in {F,T}^3 and optionally a crash (BaseException) raised at the k-th "
         "instrumented event: every Reader.read, _split2shanks per window and stream, _closefiles, write_meta_data per file, "
-        "check_NP24 entry, mtscomp.compress before/after per file, Path.rename, Path.unlink, and after every Path.mkdir (shank folder creation). Initial state: NP2.4 "
+        "check_NP24 entry, mtscomp.compress before/after per file and before every compression batch inside it (output file open, partly written), Path.rename, Path.unlink, and after every Path.mkdir (shank folder creation). Initial state: NP2.4 "
         "multi-shank / NP2.4 single shank / NP2.1 / NP1 / already split shank file x bin / cbin. (enumerated) for 8 base "
         "configurations EVERY crash point k of the first run is enumerated (event count measured by a dry run) and followed "
         "by a non-overwrite retry and an overwrite retry. (Hypothesis) random histories with random options and crash "
@@ -229,7 +229,7 @@ class World:
         targets = [(sg.Reader, "read", "read", "before"), (npx.NP2Converter, "_split2shanks", "split", "before"),
                    (npx.NP2Converter, "_closefiles", "close", "before"), (sg, "write_meta_data", "meta", "before"),
                    (npx.NP2Converter, "check_NP24", "verify", "before"), (mtscomp, "compress", "compress_begin", "before"),
-                   (mtscomp, "compress", "compress_end", "after"), (Path, "rename", "rename", "before"), (Path, "unlink", "unlink", "before"), (Path, "mkdir", "mkdir", "after")]
+                   (mtscomp.Writer, "compress_batch", "compress_batch", "before"), (mtscomp, "compress", "compress_end", "after"), (Path, "rename", "rename", "before"), (Path, "unlink", "unlink", "before"), (Path, "mkdir", "mkdir", "after")]
         orig_check = npx.NP2Converter.check_NP24
         if r.get("corrupt"):
             world = self
@@ -344,6 +344,11 @@ def run_case(case, ctx):
             if res.get("error"):
                 if r["overwrite"] and fresh_or_partial:
                     ctx.label("overwrite_on_fresh_or_partial")
+                # the run died with an exception of its own (already reported): the original must have survived that too
+                if not w.original_on_disk():
+                    ctx.check(w.reassembles() and w.original_deleted_legitimately, "C04.original_lost",
+                              lambda: f"{where}: the run raised and the original is gone; files: "
+                              f"{sorted(str(p.relative_to(w.root)) for p in w.root.rglob('*') if p.is_file())}")
                 return
             crashed = res["crashed"]
             if crashed:
